@@ -292,24 +292,36 @@ def _execute(scenario, res, br):
             if len(mat) > N or len(mat) == 0 or len(mat) > n:
                 res.violation('sample-count', f'{p["out"]}: Sample({N}) of {n} frames wrote {len(mat)} rows', **facts)
                 continue
-            # attribute rows to source frames: the smallest increasing frame index at which every column matches
+            # attribute rows to source frames: among the increasing frame indices at which every column matches to within
+            # print precision (+ a 1.5e-7 relative allowance, for attribution only) take the one with the fewest strict mismatches
+            def col_err(rw, k):
+                relaxed_ok, strict_bad = True, 0
+                for ci, c in enumerate(want_cols):
+                    ev = float(reduce_vals(c['vals'][k], p['reduce']))
+                    t = tol(d if c['kind'] == 'float' else 0, ev, c['acc'])
+                    e = abs(rw[ci] - ev)
+                    if e > t + 1.5e-7 * abs(ev):
+                        relaxed_ok = False
+                        break
+                    if e > t:
+                        strict_bad += 1
+                return relaxed_ok, strict_bad
             src = []
             k0 = 0
             okx = True
             for rw in mat:
-                found = None
+                best = None
                 for k in range(k0, n):
-                    if all(abs(rw[ci] - float(reduce_vals(c['vals'][k], p['reduce']))) <= tol(d if c['kind'] == 'float' else 0,
-                                                                                                   float(reduce_vals(c['vals'][k], p['reduce'])), c['acc'])
-                           + 1.5e-7 * abs(float(reduce_vals(c['vals'][k], p['reduce'])))      # attribution only: values are checked strictly below
-                           for ci, c in enumerate(want_cols)):
-                        found = k
-                        break
-                if found is None:
+                    ok_, bad_ = col_err(rw, k)
+                    if ok_ and (best is None or bad_ < best[0]):
+                        best = (bad_, k)
+                        if bad_ == 0:
+                            break
+                if best is None:
                     okx = False
                     break
-                src.append(found)
-                k0 = found + 1
+                src.append(best[1])
+                k0 = best[1] + 1
             if not okx or src[0] != 0:
                 res.violation('sample-rows', f'{p["out"]}: Sample({N}) of {n} frames: the {len(mat)} rows are not an increasing selection of source frames starting with the first '
                               f'(matched {src[:8]}, first rows {[b" ".join(r_)[:60] for r_ in got_rows[:3]]})', **facts)
